@@ -130,6 +130,9 @@ VISITS = {   # squeezed call text after `visitor.` -> form
 UNEXPECTED = ['Unexpected::Unit', 'Unexpected::Bool(true)', 'Unexpected::Bool(false)', 'Unexpected::Seq', 'Unexpected::Map', 'Unexpected::Str(&s)']
 STR_METHODS = {'visit_borrowed_str': 'VmBorrowedStr', 'visit_str': 'VmStr', 'visit_borrowed_bytes': 'VmBorrowedBytes', 'visit_bytes': 'VmBytes'}
 
+PW = tokenize('tri!(self.parse_whitespace())')
+NPW = len(PW)
+
 class D(ts.P):
     """recursive descent over the token list of one function body; byte / Option<u8> patterns are ts.P's"""
     def __init__(self, toks, fn, kind):
@@ -512,10 +515,10 @@ class D(ts.P):
                 if self.at('else'): raise Broken('if let .. else')
                 out.append(('ifleterr', c, x, ss)); continue
             if self.at('let') and self.is_ident(1) and self.t[self.i + 2:self.i + 4] == ['=', 'match'] \
-               and self.t[self.i + 4:self.i + 4 + 10] == tokenize('tri!(self.parse_whitespace())') and self.kind != 'err' \
-               and self.t[self.i + 14:self.i + 19] == ['{', 'Some', '(', self.t[self.i + 17], ')'] and self.t[self.i + 19:self.i + 21] == ['=>', self.t[self.i + 17]]:
+               and self.t[self.i + 4:self.i + 4 + NPW] == PW and self.kind != 'err' \
+               and self.t[self.i + 4 + NPW:self.i + 7 + NPW] == ['{', 'Some', '('] and self.t[self.i + 8 + NPW:self.i + 11 + NPW] == [')', '=>', self.t[self.i + 7 + NPW]]:
                 x = self.t[self.i + 1]
-                self.i += 14
+                self.i += 4 + NPW
                 self.need('{', 'Some', '(')
                 b = self.ident(); self.need(')', '=>', b, ',', 'None', '=>')
                 none = self.arm_expr(dict(scope))
@@ -544,10 +547,10 @@ class D(ts.P):
                     scope[x] = 'res'
                     out.append(('let', x, e))
                 continue
-            if self.at('match') and self.t[self.i + 1:self.i + 11] == tokenize('tri!(self.parse_whitespace())') and self.kind != 'err':
-                close = self.close_of(self.i + 11)
+            if self.at('match') and self.t[self.i + 1:self.i + 1 + NPW] == PW and self.kind != 'err':
+                close = self.close_of(self.i + 1 + NPW)
                 if self.t[close + 1:close + 2] != ['}']:          # a statement: arms are unit blocks
-                    self.i += 12
+                    self.i += 2 + NPW
                     arms = []
                     while not self.at('}'):
                         sc = dict(scope)
@@ -595,8 +598,7 @@ def fns_of(block):
         body, end = block_at(inner, j)
         pre = inner[i:m.start()]
         am = re.search(r'((?:#\[[^\n]*\]\s*)*)(?:pub(?:\(crate\))?\s+)?\Z', pre)
-        if m.group(1) in out: raise Broken('two definitions of fn %s' % m.group(1))
-        out[m.group(1)] = (squeeze(am.group(1)), squeeze(inner[m.end():j]), squeeze(strip_comments(body)))
+        out.setdefault(m.group(1), []).append((squeeze(am.group(1)), squeeze(inner[m.end():j]), squeeze(strip_comments(body))))
         i = end
     return out
 
@@ -636,7 +638,8 @@ def translate(repo):
     for fn, (impl, attr, header, kind) in SIGS.items():
         try:
             if fn not in found[impl]: raise Broken('not found in the %s impl' % impl)
-            gattr, gheader, body = found[impl][fn]
+            if len(found[impl][fn]) != 1: raise Broken('%d definitions in the %s impl' % (len(found[impl][fn]), impl))
+            gattr, gheader, body = found[impl][fn][0]
             if gattr != attr: raise Broken('attribute lines are `%s`, expected `%s`' % (gattr, attr))
             if gheader != header: raise Broken('signature is `%s`, the interpreter assumes `%s`' % (gheader, header))
             bodies[fn] = parse_fn(fn, kind, body)
